@@ -190,7 +190,21 @@ def snap_pattern(pat, out, pre):
     out[pre + ("cells",)] = cells(pat)
 
 
+_ACTIVE = []  # projects currently being walked (object graphs must be trees; a cycle is reported, not followed)
+
+
 def snap_project(p, out, pre=(), depth=0):
+    if any(p is q for q in _ACTIVE) or depth > 8:
+        out[pre + ("kind",)] = "<cycle: project already being walked>"
+        return
+    _ACTIVE.append(p)
+    try:
+        _snap_project(p, out, pre, depth)
+    finally:
+        _ACTIVE.pop()
+
+
+def _snap_project(p, out, pre=(), depth=0):
     out[pre + ("kind",)] = "Project"
     for f in PROJECT_FIELDS:
         out[pre + (f,)] = canon(getattr(p, f))
